@@ -197,6 +197,8 @@ type plan struct {
 	SrvRead      bool   `json:"server_read_timeout"`  // Server.ReadTimeout non-zero
 	SrvWrite     bool   `json:"server_write_timeout"` // Server.WriteTimeout non-zero
 	SrvIdle      bool   `json:"server_idle_timeout"`  // Server.IdleTimeout non-zero
+	PreKinds     []int  `json:"pre_kinds"`            // per ordinary request in front: 0 plain handler; 1 handler calls HijackSetNoResponse(true) and does NOT hijack
+	PreWait      bool   `json:"pre_wait"`             // the hijacking request is sent only after the requests in front were answered (keep-alive), else pipelined
 	HdrRecv      int    `json:"header_received"`      // 0: no HeaderReceived; 1: per-request ReadTimeout; 2: WriteTimeout; 3: both; 4: empty RequestConfig
 }
 
@@ -230,7 +232,11 @@ func genPlan(rnd *rand.Rand, ci int) plan {
 	p.NoResp = rnd.Intn(3) == 0
 	p.ReadBuf = []int{0, 0, 512, 1024, 2048, 8192}[rnd.Intn(6)]
 	p.WriteBuf = []int{0, 0, 512, 4096}[rnd.Intn(4)]
-	p.Pre = rnd.Intn(3)
+	p.Pre = rnd.Intn(4)
+	for k := 0; k < p.Pre; k++ {
+		p.PreKinds = append(p.PreKinds, rnd.Intn(2))
+	}
+	p.PreWait = p.Pre > 0 && rnd.Intn(2) == 0
 	p.Method = []string{"GET", "GET", "POST", "POST", "HEAD"}[rnd.Intn(5)]
 	if p.Method == "POST" {
 		p.BodyLen = rnd.Intn(300)
@@ -346,6 +352,10 @@ func runCase(p plan, rnd *rand.Rand) (probs []problem, inc string, info map[stri
 	}
 	methods = append(methods, p.Method)
 	boundary := script.Len()
+	preLen := 0 // bytes of the ordinary requests in front of the hijacking request
+	for k := 0; k < p.Pre; k++ {
+		preLen += len(fmt.Sprintf("GET /pre/%d HTTP/1.1\r\nHost: example.com\r\n\r\n", k))
+	}
 	trnd := rand.New(rand.NewSource(p.TailSeed))
 	tail := genTail(trnd, p.TailKind, p.TailLen)
 	tail2 := genTail(trnd, p.TailKind, p.Tail2Len)
@@ -371,12 +381,17 @@ func runCase(p plan, rnd *rand.Rand) (probs []problem, inc string, info map[stri
 		}
 		frag = netx.FragBoundaries([]int{b})
 	}
-	tc := &tagConn{Scripted: netx.NewScripted(script.Bytes(), frag), closeCh: make(chan struct{})}
+	first := script.Bytes()
+	var second []byte // sent when the server has answered everything in front and asks for more
+	if p.PreWait {
+		first, second = script.Bytes()[:preLen], script.Bytes()[preLen:]
+	}
+	tc := &tagConn{Scripted: netx.NewScripted(first, frag), closeCh: make(chan struct{})}
 	hs := &hijackState{started: make(chan struct{}), done: make(chan struct{})}
 	released := make(chan struct{})
 	var tail2Given atomic.Bool
 	var keeperGoid atomic.Uint64
-	if p.Tail2Len > 0 {
+	if p.Tail2Len > 0 || p.PreWait {
 		tc.OnStarve = func() []byte {
 			// the client reacts to what the hijack handler wrote: only a read made by
 			// the handler (or the keeper of the kept conn) can see the second part
@@ -384,6 +399,13 @@ func runCase(p plan, rnd *rand.Rand) (probs []problem, inc string, info map[stri
 			select {
 			case <-hs.started:
 			default:
+				if b := second; b != nil {
+					second = nil // (only the serving goroutine reads before the hand-over)
+					return b
+				}
+				return nil
+			}
+			if p.Tail2Len == 0 {
 				return nil
 			}
 			if (g == hs.goid || g == keeperGoid.Load()) && tail2Given.CompareAndSwap(false, true) {
@@ -433,6 +455,10 @@ func runCase(p plan, rnd *rand.Rand) (probs []problem, inc string, info map[stri
 	handler := func(ctx *fasthttp.RequestCtx) {
 		if bytes.HasPrefix(ctx.Path(), []byte("/pre/")) {
 			ctx.SetBodyString("pre:" + string(ctx.Path()))
+			var k int
+			if _, err := fmt.Sscanf(string(ctx.Path()), "/pre/%d", &k); err == nil && k < len(p.PreKinds) && p.PreKinds[k] == 1 {
+				ctx.HijackSetNoResponse(true) // no hijack follows: the flag must neither suppress this response nor survive into the next request
+			}
 			return
 		}
 		if p.Upgrade {
@@ -616,6 +642,10 @@ func runCase(p plan, rnd *rand.Rand) (probs []problem, inc string, info map[stri
 	}
 	off := 0
 	for k := 0; k < nresp; k++ {
+		staleFlag := false
+		for j := 0; j < k && j < len(p.PreKinds); j++ {
+			staleFlag = staleFlag || p.PreKinds[j] == 1
+		}
 		if off >= len(all) {
 			add("response-missing", fmt.Sprintf("response %d of %d missing on the wire", k+1, nresp))
 			break
@@ -626,6 +656,11 @@ func runCase(p plan, rnd *rand.Rand) (probs []problem, inc string, info map[stri
 			key := "response-unparsable"
 			if m.Has(h1.FIncomplete) {
 				key = "response-incomplete"
+			}
+			if k == p.Pre && staleFlag && bytes.HasPrefix(all[off:], w1) {
+				// narrow class: no response at all for the hijacking request although it asked for one,
+				// after an earlier request on the connection had set the no-response flag without hijacking
+				key = "noresponse-flag-leaks-into-next-request"
 			}
 			add(key, fmt.Sprintf("response %d: %s: %s", k+1, m.Fatal, mon.Short(all[off:], 200)))
 			off = -1
@@ -788,7 +823,7 @@ func sizeClass(n int) string {
 func TestC17(t *testing.T) {
 	r := mon.Start(t, "C17")
 	defer r.Finish()
-	r.Rule("case = ServeConn over a scripted conn: 0-2 ordinary requests, a hijacking request (GET/POST+body/HEAD, optional Upgrade/101, response body 0-20000 bytes, HijackSetNoResponse 1/3) and a PRNG tail of 0-65536 bytes (random/http-like/CRLF/text) plus an optional second part sent only after the handler's first write; ReduceMemoryUsage, KeepHijackedConns, Read/WriteBufferSize, Server.ReadTimeout/WriteTimeout/IdleTimeout zero or not, HeaderReceived absent or returning per-request Read/WriteTimeout, and the fragmentation plan (everything per Read, boundary exactly at the request end, k bytes into the tail, k bytes before the end, fixed n) vary; the hijack handler writes, reads to EOF with PRNG read sizes, writes, optionally closes; in keep mode it may stop early and the kept conn is read to EOF afterwards. distinct = (options, method, fragmentation mode, tail size class, how many tail bytes were already consumed from the conn at hand-over: none/part/all, second part, close variants); non-trivial = tail non-empty")
+	r.Rule("case = ServeConn over a scripted conn: 0-3 ordinary requests (each handler plain or calling HijackSetNoResponse(true) without hijacking; pipelined with, or answered before, the hijacking request), a hijacking request (GET/POST+body/HEAD, optional Upgrade/101, response body 0-20000 bytes, HijackSetNoResponse 1/3) and a PRNG tail of 0-65536 bytes (random/http-like/CRLF/text) plus an optional second part sent only after the handler's first write; ReduceMemoryUsage, KeepHijackedConns, Read/WriteBufferSize, Server.ReadTimeout/WriteTimeout/IdleTimeout zero or not, HeaderReceived absent or returning per-request Read/WriteTimeout, and the fragmentation plan (everything per Read, boundary exactly at the request end, k bytes into the tail, k bytes before the end, fixed n) vary; the hijack handler writes, reads to EOF with PRNG read sizes, writes, optionally closes; in keep mode it may stop early and the kept conn is read to EOF afterwards. distinct = (options, method, fragmentation mode, tail size class, how many tail bytes were already consumed from the conn at hand-over: none/part/all, second part, close variants); non-trivial = tail non-empty")
 	r.Assume("h1 reference decides the request boundary and response framing; goroutine ids taken from runtime.Stack attribute conn operations; 'the server is done' = the goroutine that ran the hijack handler no longer exists")
 	r.Assume("deadlines are observed, not waited for: every Set*Deadline call on the conn is logged; at the start of the hijack handler the last read and the last write deadline set by the server must be zero (or never set) and no deadline call may follow; the handler itself sets none")
 	r.Assume("requests with 'Connection: close' (documented: hijack handler skipped) are executed but not judged (events connclose_*)")
@@ -820,7 +855,7 @@ func TestC17(t *testing.T) {
 		case buffered > 0:
 			bclass = "part"
 		}
-		class := fmt.Sprintf("rmu=%v keep=%v noresp=%v m=%s up=%v pre=%d frag=%s tail=%s buf=%s t2=%v hc=%v kt=%v rb=%d to=%v%v%v/%d", p.RMU, p.Keep, p.NoResp, p.Method, p.Upgrade, p.Pre, p.FragMode, sizeClass(p.TailLen), bclass, info["tail2"], p.HandlerClose, p.KeepTail, p.ReadBuf, p.SrvRead, p.SrvWrite, p.SrvIdle, p.HdrRecv)
+		class := fmt.Sprintf("rmu=%v keep=%v noresp=%v m=%s up=%v pre=%v/%v frag=%s tail=%s buf=%s t2=%v hc=%v kt=%v rb=%d to=%v%v%v/%d", p.RMU, p.Keep, p.NoResp, p.Method, p.Upgrade, p.PreKinds, p.PreWait, p.FragMode, sizeClass(p.TailLen), bclass, info["tail2"], p.HandlerClose, p.KeepTail, p.ReadBuf, p.SrvRead, p.SrvWrite, p.SrvIdle, p.HdrRecv)
 		r.Case(class, p.TailLen > 0)
 		r.Event("handovers_checked", 1)
 		if c, ok := info["deadline_calls"].(int); ok {
@@ -841,6 +876,12 @@ func TestC17(t *testing.T) {
 		if p.Keep {
 			r.Event("keep_mode", 1)
 		}
+		for _, k := range p.PreKinds {
+			if k == 1 && !p.NoResp {
+				r.Event("hijack_with_response_after_noresponse_flag", 1)
+				break
+			}
+		}
 		if r.WantSample() && buffered > 0 {
 			r.Sample(map[string]any{"plan": p, "tail_bytes_buffered_at_handover": buffered, "bytes_compared": info["compared"]})
 		}
@@ -857,4 +898,5 @@ func TestC17(t *testing.T) {
 	r.Require("handovers_with_buffered_tail", n/10)
 	r.Require("tail_bytes_compared", n*100)
 	r.Require("handovers_after_armed_deadline", n/4)
+	r.Require("hijack_with_response_after_noresponse_flag", n/10)
 }
